@@ -11,7 +11,7 @@ TargetsCompile == TargetsAll \cup ExprTargets
 KvPlain == {"int", "id", "str", "strsemi", "short", "dbg", "debug", "disp", "display", "shortdbg"}
 KvFew == {"int", "strsemi", "short", "dbg"}
 KvParseOnly == {"err", "sval", "serde"}
-KvRef == {"ref=7", "ref=0", "ref=max", "ref=07", "ref=x", "ref:?=x", "ref=over", "ref=str", "ref=neg", "ref=hex", "ref=suffixed"}
+KvRef == {"ref=7", "ref=strkey", "ref=0", "ref=max", "ref=07", "ref=x", "ref:?=x", "ref=over", "ref=str", "ref=neg", "ref=hex", "ref=suffixed"}
 KvRefFew == {"ref=7", "ref=x", "ref=over"}
 MsgAll == {"plain", "leadspace", "endbackslash", "onlybackslash", "slashes", "blockcm", "placeholders", "escquote", "unicode", "reflater", "empty",
            "validref", "validref0", "validrefmax", "bracketnoref", "unicodefirst"}
